@@ -1,3 +1,4 @@
+import os
 """Run context: executes cases, collects coverage statistics, violations and samples."""
 import collections, time
 from .common import *
@@ -30,7 +31,13 @@ class Ctx:
         return self.tier == "thorough"
 
     def n(self, quick, thorough):
-        return thorough if self.thorough else quick
+        # quick budgets are the original per-stream counts times VERIF_QUICK_SCALE (default 3): the whole quick
+        # suite then still runs in about a minute on 16 cores; small-scope bounds (quick < 10) are left alone
+        if self.thorough:
+            return thorough
+        if quick < 10:
+            return quick
+        return min(thorough, quick * int(os.environ.get("VERIF_QUICK_SCALE", "3")))
 
     def run(self, cases, layers=("impl", "spec")):
         res = execute(cases, self.hbin, layers=layers)
